@@ -497,6 +497,29 @@ def C07(run):
     corpustrace(run)
 
 
+def corpus_parse(run, family='verdict', profiles=('debug',), env=None):
+    """The recogniser model (Lexer.tla + Parser.tla) on the TEXTS of the program corpus (quick: the texts of at most 400 characters, the
+    model is slow on long ones): its verdict - the tree, or the error line - must be the real parser's."""
+    import glob
+    texts = run.path('corpus-texts.ndjson')
+    with open(texts, 'w') as f:
+        for path in sorted(glob.glob(os.path.join(VERIF, 'corpus', '*.rock'))):
+            t = open(path, encoding='utf-8').read()
+            if all(ord(ch) < 128 for ch in t):
+                f.write(json.dumps(dict(file=os.path.basename(path)[:-5], text=t)) + '\n')
+    out = run.path('parser-corpus.out')
+    res = run_tlc('MC_ParserCorpus.tla', 'MC_ParserCorpus_%s.cfg' % run.tier, out, extra_env={'CORPUS': texts}, xss='512m', timeout=5400)
+    run.add_tlc('parser-corpus', res)
+    for prof in profiles:
+        s = run_replay(family, out, profile=prof, timeout_ms=20000, env=getattr(run, 'replay_env', None) if env is None else env)
+        run.add_replay('parser-corpus:' + prof, s, family)
+    for f in (out, texts):
+        try:
+            os.remove(f)
+        except OSError:
+            pass
+
+
 def corpus_analysis(run, kind, family, env=None):
     """Lint.tla / Visitor.tla applied to the program corpus: the trees are the REAL parser's (vh record corpus-trees, canonical names,
     physical lines); TLC computes the report / the presentation log the specification prescribes; the real linter / a recording visitor
@@ -594,6 +617,9 @@ def C02(run):
     # the other direction: texts the grammar did not produce.  The recogniser model assigns each line-fragment soup text a tree or
     # an error line; the real parser must assign the same (accepted texts: exactly the tree).
     parser_soup(run, ['lines3'] if run.tier == 'quick' else ['lines4', 'core4'])
+    # ... and real programs: the texts of the program corpus get the recogniser model's verdict
+    run.rule += '; the texts of the program corpus (the repository\'s own test programs) get the recogniser model\'s verdict: same tree / same error line'
+    corpus_parse(run)
     if run.tier == 'thorough':
         grammar(run, 'e2e', family='e2e', parts='run')
         tlc_replay(run, 'parser-simlines', 'MC_Parser.tla', 'MC_Parser_simlines.cfg', 'verdict', simulate='num=4000', workers=8, xss='256m')
@@ -630,6 +656,8 @@ def C13(run):
     grammar(run, 'fault', family='fault')
     # beyond the catalogue: every token-soup text; the recogniser model decides acceptance and the error line
     parser_soup(run, ['full2', 'tiny3', 'core3', 'lines3'] if run.tier == 'quick' else ['full3', 'core4', 'tiny4', 'stmt5', 'lines4'], env={'VH_REJECT_ONLY': '1'})
+    # the corpus holds programs the pinned parser rejects (constructs it does not support): same line as the recogniser model
+    corpus_parse(run, env={'VH_REJECT_ONLY': '1'})
 
 
 def C20(run):
